@@ -34,14 +34,9 @@ import (
 // ---------------------------------------------------------------------------
 // oracles
 
-type failure struct {
-	clause string
-	what   string
-}
+type failure = amf0lib.Failure
 
-func fail(clause, format string, a ...interface{}) *failure {
-	return &failure{clause, fmt.Sprintf(format, a...)}
-}
+var fail = amf0lib.Failf
 
 // evalAPI checks one API-built tree; nil means every clause holds.
 func evalAPI(t *ref.Tree) *failure {
@@ -198,86 +193,6 @@ func evalBytes(w *wireCase, b []byte, first int) (f *failure, decoded bool) {
 }
 
 // ---------------------------------------------------------------------------
-// feature attribution by neutralisation
-
-type neutraliser struct {
-	name string
-	f    func(*ref.Tree) *ref.Tree
-}
-
-var neutralisers = []neutraliser{
-	{"strict-array-nonempty", ref.NeutraliseStrict},
-	{"repeated-key", ref.DedupKeys},
-	{"ecma-count", func(t *ref.Tree) *ref.Tree {
-		return t.Map(func(n *ref.Tree) *ref.Tree {
-			if n.Kind == ref.EcmaArray {
-				n.Count = uint32(len(n.Pairs))
-			}
-			return n
-		})
-	}},
-	{"empty-key", func(t *ref.Tree) *ref.Tree {
-		return t.Map(func(n *ref.Tree) *ref.Tree {
-			if n.Kind == ref.Object || n.Kind == ref.EcmaArray {
-				for i := range n.Pairs {
-					if n.Pairs[i].Key == "" {
-						n.Pairs[i].Key = fmt.Sprintf("e%d", i)
-					}
-				}
-			}
-			return n
-		})
-	}},
-	{"number-nan", func(t *ref.Tree) *ref.Tree {
-		return t.Map(func(n *ref.Tree) *ref.Tree {
-			if n.Kind == ref.Number && n.Float() != n.Float() {
-				return ref.Num(1)
-			}
-			return n
-		})
-	}},
-	{"number-special", func(t *ref.Tree) *ref.Tree {
-		return t.Map(func(n *ref.Tree) *ref.Tree {
-			if n.Kind == ref.Number {
-				return ref.Num(1)
-			}
-			return n
-		})
-	}},
-	{"string-long", func(t *ref.Tree) *ref.Tree {
-		return t.Map(func(n *ref.Tree) *ref.Tree {
-			if n.Kind == ref.String && len(n.Str) > 255 {
-				return ref.Str("x")
-			}
-			return n
-		})
-	}},
-	{"empty-container", func(t *ref.Tree) *ref.Tree {
-		return t.Map(func(n *ref.Tree) *ref.Tree {
-			if n.Kind.IsContainer() && len(n.Pairs) == 0 {
-				return ref.Nul()
-			}
-			return n
-		})
-	}},
-}
-
-// feature names the first neutralisation that changes the case and makes it
-// pass; if none does, the root kind.
-func feature(t *ref.Tree, passes func(*ref.Tree) bool) string {
-	for _, n := range neutralisers {
-		t2 := n.f(t)
-		if ref.Equal(t2, t) {
-			continue
-		}
-		if passes(t2) {
-			return n.name
-		}
-	}
-	return "kind=" + t.Kind.String()
-}
-
-// ---------------------------------------------------------------------------
 // drivers
 
 func hashKey(fam string, b []byte) uint64 {
@@ -303,11 +218,8 @@ func checkAPI(c *hl.Ctx, t *ref.Tree) {
 		c.DistinctH("distinct_nontrivial", hashKey("api", ref.Encode(t)))
 		return
 	}
-	feat := feature(t, func(t2 *ref.Tree) bool { return evalAPI(t2) == nil })
-	c.Violation("api/"+f.clause+"/"+feat, f.what, apiCase{Part: "api", Tree: t.Clone()})
-	if strict && feat == "strict-array-nonempty" {
-		return // the neutralised tree passed (that is how the feature was found)
-	}
+	feat, f := amf0lib.Attribute([]*ref.Tree{t}, f, func(s []*ref.Tree) *failure { return evalAPI(s[0]) })
+	c.Violation("api/"+f.Clause+"/"+feat, f.What, apiCase{Part: "api", Tree: t.Clone()})
 }
 
 type bytesCase struct {
@@ -336,14 +248,14 @@ func checkBytes(c *hl.Ctx, w *wireCase, b []byte, first int) {
 		c.DistinctH("distinct_nontrivial", hashKey("bytes", b))
 		return
 	}
-	feat := feature(w.Tree, func(t2 *ref.Tree) bool {
-		w2 := &wireCase{Tree: t2, Suffix: w.Suffix, Byte: w.Byte, Next: w.Next}
+	feat, f := amf0lib.Attribute([]*ref.Tree{w.Tree}, f, func(s []*ref.Tree) *failure {
+		w2 := &wireCase{Tree: s[0], Suffix: w.Suffix, Byte: w.Byte, Next: w.Next}
 		b2, first2 := w2.bytes()
 		f2, _ := evalBytes(w2, b2, first2)
-		return f2 == nil
+		return f2
 	})
 	cs := bytesCase{Part: "bytes", wireCase: wireCase{Tree: w.Tree.Clone(), Suffix: w.Suffix, Byte: w.Byte, Next: w.Next}}
-	c.Violation("bytes/"+f.clause+"/"+feat, f.what, cs)
+	c.Violation("bytes/"+f.Clause+"/"+feat, f.What, cs)
 }
 
 // checkBooleanBytes: 01 xx for every xx decodes with Size()==2, in front of another value.
@@ -355,7 +267,7 @@ func checkBooleanBytes(c *hl.Ctx) {
 		w := &wireCase{Tree: ref.Bool(x != 0), Suffix: ref.SuffixValue, Next: next}
 		f, decoded := evalBytes(w, b, 2)
 		if f != nil {
-			c.Violation(fmt.Sprintf("bytes/%s/boolean-byte", f.clause), fmt.Sprintf("boolean body byte %#02x: %s", x, f.what), map[string]interface{}{"part": "boolbyte", "byte": x})
+			c.Violation(fmt.Sprintf("bytes/%s/boolean-byte", f.Clause), fmt.Sprintf("boolean body byte %#02x: %s", x, f.What), map[string]interface{}{"part": "boolbyte", "byte": x})
 		} else if decoded {
 			c.DistinctH("distinct_nontrivial", hashKey("bool", b))
 		}
@@ -394,7 +306,7 @@ func run(c *hl.Ctx) {
 	var api, wire []profile
 	if c.Quick() {
 		api = []profile{{Name: "full", Nodes: 4, Keys: keys4, leaves: full}, {Name: "small", Nodes: 6, Keys: keys2, leaves: small}}
-		wire = []profile{{Name: "full", Nodes: 3, Keys: keys4, leaves: full}, {Name: "small", Nodes: 4, Keys: keys2, leaves: small}}
+		wire = []profile{{Name: "full", Nodes: 3, Keys: keys4, leaves: full}, {Name: "small", Nodes: 5, Keys: keys2, leaves: small}}
 	} else {
 		api = []profile{{Name: "full", Nodes: 5, Keys: keys4, leaves: full}, {Name: "small", Nodes: 7, Keys: keys2, leaves: small}}
 		wire = []profile{{Name: "full", Nodes: 4, Keys: keys4, leaves: full}, {Name: "small", Nodes: 5, Keys: keys2, leaves: small}}
